@@ -6,6 +6,7 @@ import (
 	"fmt"
 	"github.com/pkg/errors"
 	"io"
+	"runtime"
 	"runtime/debug"
 
 	"github.com/itchio/headway/state"
@@ -306,7 +307,7 @@ type OptimizeKnobs struct {
 func GenKnobs(rt *rapid.T) OptimizeKnobs {
 	k := OptimizeKnobs{
 		Partitions:  rapid.IntRange(0, 16).Draw(rt, "partitions"),
-		SuffixConc:  rapid.IntRange(-1, 4).Draw(rt, "suffixconc"),
+		SuffixConc:  rapid.SampledFrom([]int{-1, 0, 1, 2, 3, 4, -2, -runtime.NumCPU() + 1, -runtime.NumCPU(), -runtime.NumCPU() - 1, -1000, 64}).Draw(rt, "suffixconc"),
 		ForceMapAll: rapid.IntRange(0, 3).Draw(rt, "forcemapall") == 0,
 	}
 	switch rapid.IntRange(0, 4).Draw(rt, "sizelimit") {
